@@ -58,7 +58,8 @@ async def call_op(api, kind, a):
     if kind == 5: return await api.delete_schedule(a[0])
     if kind == 6:
         days = [DAYS[i] for i in a[2]]
-        return await api.create_schedule(a[0], a[1], set(days) if a[3] == "set" else days)
+        form = {"set": set, "list": list, "tuple": tuple, "frozenset": frozenset}[a[3]]
+        return await api.create_schedule(a[0], a[1], form(days))
     if kind == 7: return await api.stop()
     if kind == 8: return await api.set_position(a[0])
     if kind == 9: return await api.get_shutter_state()
@@ -86,7 +87,7 @@ def model_op_args(kind, a, now):
     if kind == 2: return [a[0]]
     if kind == 3: return [a[0]]
     if kind == 5: return [a[0]]
-    if kind == 6: return [utc_midnight(now), a[0], a[1], list(a[2]), 0 if a[3] == "set" else 1]
+    if kind == 6: return [utc_midnight(now), a[0], a[1], list(a[2]), 0 if a[3] in ("set", "frozenset") else 1]
     if kind == 8: return [a[0]]
     if kind == 12:
         irset, st, md, tg, fn, sw, upd = a
@@ -107,7 +108,8 @@ class ScriptedApi:
     """A real API object whose stream is replaced by a scripted reader and a recording writer."""
     def __init__(self, type2, dev_id, key):
         self.api = (SwitcherType2Api if type2 else SwitcherType1Api)("127.0.0.1", dev_id, key)
-        self.frames = []; self.script = []
+        self.frames = []; self.script = []; self.hung = False
+        self.patience = 20          # seconds (real, or virtual under VirtualLoop) after which a call on scripted streams counts as never returning
         w = MagicMock(); r = MagicMock()
         w.write = lambda b: self.frames.append(bytes(b).hex())
         async def read(n):
@@ -119,9 +121,12 @@ class ScriptedApi:
         """-> canonical text: every written frame in hex followed by '|', then the outcome"""
         self.frames.clear(); self.script[:] = list(replies)
         try:
+            if self.hung: raise asyncio.TimeoutError()          # an earlier call on this object never returned: no point in waiting again
             with time_machine.travel(float(now), tick=False):
-                r = await call_op(self.api, kind, args)
+                r = await asyncio.wait_for(call_op(self.api, kind, args), self.patience)
             out = show_response(kind, r)
+        except asyncio.TimeoutError:
+            self.hung = True; out = "exc:NeverReturned"
         except Exception as e:
             out = "exc:" + exc_name(e)
         return "".join(f + "|" for f in self.frames) + out
@@ -151,7 +156,7 @@ def run_virtual(coro):
 class SlowApi(ScriptedApi):
     """scripted stream whose every reply arrives after a scripted (virtual) delay"""
     def __init__(self, *a):
-        super().__init__(*a); self.delays = []
+        super().__init__(*a); self.delays = []; self.patience = 10 ** 7        # virtual seconds: far beyond every scripted delay
         async def read(n):
             d = self.delays.pop(0) if self.delays else 0
             if d: await asyncio.sleep(d)
@@ -175,8 +180,12 @@ def rand_bytes(rnd, n): return bytes(rnd.randrange(256) for _ in range(n))
 
 
 def login_reply(rnd, session=None):
-    sess = session if session is not None else rand_bytes(rnd, 4)
-    return rand_bytes(rnd, 8) + sess + rand_bytes(rnd, rnd.choice([0, 12, 20, rnd.randrange(0, 60)]))
+    sess = session if session is not None else rnd.choice([rand_bytes(rnd, 4)] * 6 + [b"\x12\xfe\xf0\x34", b"\xfe\xf0\xfe\xf0", b"\0\0\0\0", b"\0" + rand_bytes(rnd, 3)])
+    tail = bytearray(rand_bytes(rnd, rnd.choice([0, 12, 20, rnd.randrange(0, 60)])))
+    if len(tail) >= 2 and rnd.random() < .2:         # the frame magic may occur anywhere in a reply (a signature, a counter)
+        k = rnd.randrange(len(tail) - 1); tail[k:k + 2] = b"\xfe\xf0"
+    head = rnd.choice([rand_bytes(rnd, 8)] * 3 + [b"\xfe\xf0" + rand_bytes(rnd, 6)])
+    return head + sess + bytes(tail)
 
 
 NAME_ALPHABETS = {"ascii": "abcXYZ 019_-", "heb": "אבגדהוזחטי ", "acc": "éàüñøß", "emoji": "😀🚀𝄞", "mixed": "aé😀א"}
@@ -230,10 +239,10 @@ def rand_op_case(rnd, kind, reply_mode="valid", accepted_args=False):
     if accepted_args and kind == 3 and len(args[0]) < 2: args = ["ab"]
     if kind in STATE_KINDS: second = state_reply_for(rnd, kind)
     elif kind == 4: second = schedules_reply(rnd, now)
-    else: second = rnd.choice([b"\x01", rand_bytes(rnd, 20), rand_bytes(rnd, rnd.randrange(1, 60))])
+    else: second = rnd.choice([b"\x01", rand_bytes(rnd, 20), rand_bytes(rnd, rnd.randrange(1, 60)), b"\x00", bytes(rnd.randrange(1, 40))])
     replies = [login, second]
     if kind == 12:
-        replies = [login, thermostat_reply(rnd), rnd.choice([b"\x01\x02", rand_bytes(rnd, 12)]), b"\x03"]
+        replies = [login, thermostat_reply(rnd), rnd.choice([b"\x01\x02", rand_bytes(rnd, 12), b"\x00", bytes(12)]), rnd.choice([b"\x03", b"\x00"])]
     if reply_mode == "faulty":
         k = rnd.random(); i = rnd.randrange(len(replies))
         if k < .45: replies[i] = b""
